@@ -440,3 +440,124 @@ Print Assumptions C10_dollars_math_nodes_partial.
 Print Assumptions C10_dollars_tree_partial.
 Print Assumptions C10_modes_grammar.
 Print Assumptions C10_dollars_grammar_nonvacuous.
+
+(** * C10 over the EXTENDED document grammar (composition with [C02_parse_unparse2_partial])
+
+    [Doc/DocGrammar2.v]: the core grammar plus environments with arguments and
+    math bodies, [$$ .. $$], specials with arguments, optional delimited
+    arguments / star written or absent, single-token mandatory arguments,
+    verbatim macro / environments / arguments, comments in front of arguments. *)
+From PLV Require Import Doc.DocGrammar2 Proofs.Compose2Dollars.
+
+(** the tree that EVERY document of the extended grammar means — which is the
+    tree the strict (and the tolerant) parser returns for its written form,
+    [C02_parse_unparse2_partial] — satisfies C10's implied-mode specification
+    w.r.t. text mode: every node records the mode implied by its enclosing
+    constructs (math environments, leave-math / enter-math argument deltas,
+    the four math delimiter pairs).  ALL contexts, ALL documents. *)
+Theorem C10_modes_grammar2 : forall cx d, ok_doc2 cx d = true ->
+  implied cx text_mode (gen_nodelist 0 (fst (tree_of2 cx (walker_state cx) 0 d))).
+Proof. exact grammar_modes2. Qed.
+
+(** C10_dollars for dollar documents WITH display formulas: [dollar_doc2 d] —
+    every item is a text run [Text2 ws cs], an inline formula
+    [Math2 ws MDollar body tr] (written [ws $ body tr $]) or a display formula
+    [Math2 ws MDollars body tr] (written [ws $$ body tr $$]), bodies made of text
+    runs.  For EVERY context and EVERY such document satisfying [ok_doc2]: the
+    parse succeeds, consumes the input, and the [dview] of its items is
+    [dollar_spec2 d]: one chars node in text mode per maximal text run; one math
+    node per formula, recorded in text mode, [display = false] and delimiters
+    [$] [$] for an inline formula, [display = true] and delimiters [$$] [$$] for
+    a display formula, whose body is one chars node in math mode with the
+    opening delimiter recorded.
+
+    PARTIAL with respect to the DESIGN statement only in that formula bodies
+    are text (bodies with macros, groups, environments are covered, for the
+    modes, by [C10_modes_grammar2]). *)
+Theorem C10_dollars_grammar2_partial : forall cx d, ok_doc2 cx d = true -> dollar_doc2 d = true ->
+  exists p e items,
+    parse_top (unparse2 d) false cx (walker_state cx) = Ok (ONode (Some (NList p e items))) (length (unparse2 d))
+    /\ map dviewo items = dollar_spec2 d.
+Proof. exact dollars_grammar2. Qed.
+
+(** the math nodes of the parse are exactly the formulas of the document, in
+    order, each inline / display as written; no inline formula is empty *)
+Theorem C10_dollars_math_nodes2_partial : forall cx d, ok_doc2 cx d = true -> dollar_doc2 d = true ->
+  exists p e items,
+    parse_top (unparse2 d) false cx (walker_state cx) = Ok (ONode (Some (NList p e items))) (length (unparse2 d))
+    /\ filter is_dmath (map dviewo items) = map (fun kt => vmath_of (fst kt) (snd kt)) (formulas2 (d_items2 d))
+    /\ Forall (fun kt => fst kt = MDollar -> snd kt <> []) (formulas2 (d_items2 d)).
+Proof. exact dollars_math_nodes2. Qed.
+
+(** the same at the level of the meaning function: any parsing state in text mode, any offset *)
+Theorem C10_dollars_tree2_partial : forall cx ps pos d, ps_mode ps = text_mode -> dollar_doc2 d = true ->
+  map dviewo (fst (tree_of2 cx ps pos d)) = dollar_spec2 d.
+Proof. exact dollar_tree2. Qed.
+
+Section DollarExample2.
+  Open Scope N_scope.
+  (** the property's own examples are instances: [$a$$b$] is the dollar document of two
+      inline formulas, [$$a$$] the dollar document of one display formula *)
+  Let dd : doc2 := {| d_items2 := [Math2 [] MDollar [Text2 [] [97]] []; Math2 [] MDollar [Text2 [] [98]] []];
+                      d_trail2 := [] |}.
+  Let d1 : doc2 := {| d_items2 := [Math2 [] MDollars [Text2 [] [97]] []]; d_trail2 := [] |}.
+  Example C10_dollars_two_inline_instance :
+    ok_doc2 default_ctx dd = true /\ dollar_doc2 dd = true /\ unparse2 dd = [36;97;36;36;98;36]
+    /\ dollar_spec2 dd = [VMath text_mode false [36] [36] [VChars (math_mode (Some [36])) [97]];
+                          VMath text_mode false [36] [36] [VChars (math_mode (Some [36])) [98]]].
+  Proof. vm_compute. repeat split. Qed.
+  Example C10_dollars_one_display_instance :
+    ok_doc2 default_ctx d1 = true /\ dollar_doc2 d1 = true /\ unparse2 d1 = [36;36;97;36;36]
+    /\ dollar_spec2 d1 = [VMath text_mode true [36;36] [36;36] [VChars (math_mode (Some [36;36])) [97]]].
+  Proof. vm_compute. repeat split. Qed.
+
+  (** [x $$a b $$$c$ y$$$$\n$d$\n]: display formula, inline formula directly after it, text,
+      an empty display formula, a formula after a newline; the conclusion of the theorem is
+      also checked independently by evaluation of the parser *)
+  Let de : doc2 := {| d_items2 := [Text2 [] [120]; Math2 [32] MDollars [Text2 [] [97]; Text2 [32] [98]] [32];
+                                   Math2 [] MDollar [Text2 [] [99]] []; Text2 [32] [121];
+                                   Math2 [] MDollars [] []; Math2 [10] MDollar [Text2 [] [100]] []];
+                      d_trail2 := [10] |}.
+  Example C10_dollars_grammar2_nonvacuous :
+    ok_doc2 default_ctx de = true /\ dollar_doc2 de = true
+    /\ unparse2 de = [120;32;36;36;97;32;98;32;36;36;36;99;36;32;121;36;36;36;36;10;36;100;36;10]
+    /\ dollar_spec2 de = [VChars text_mode [120; 32];
+                          VMath text_mode true [36;36] [36;36] [VChars (math_mode (Some [36;36])) [97;32;98;32]];
+                          VMath text_mode false [36] [36] [VChars (math_mode (Some [36])) [99]];
+                          VChars text_mode [32; 121];
+                          VMath text_mode true [36;36] [36;36] [];
+                          VChars text_mode [10];
+                          VMath text_mode false [36] [36] [VChars (math_mode (Some [36])) [100]];
+                          VChars text_mode [10]]
+    /\ formulas2 (d_items2 de) = [(MDollars, [97;32;98;32]); (MDollar, [99]); (MDollars, []); (MDollar, [100])]
+    /\ match parse_top (unparse2 de) false default_ctx (walker_state default_ctx) with
+       | Ok (ONode (Some (NList _ _ l))) p => Some (map dviewo l, p)
+       | _ => None end = Some (dollar_spec2 de, 24%nat).
+  Proof. vm_compute. repeat split. Qed.
+
+  (** [\begin{equation}x\text{a $b$}\end{equation}\ensuremath{y}$$z$$]: a document of the
+      extended grammar with a math environment, a leave-math argument inside it containing an
+      inline formula, an enter-math argument and a display formula; the recorded modes of its
+      character leaves *)
+  Let dm : doc2 := {| d_items2 :=
+    [Env2 [] [] [101;113;117;97;116;105;111;110] []
+       [Text2 [] [120];
+        Mac2 [] [116;101;120;116] [] [Grp2 [] [Text2 [] [97]; Math2 [32] MDollar [Text2 [] [98]] []] []]] [] [];
+     Mac2 [] [101;110;115;117;114;101;109;97;116;104] [] [Grp2 [] [Text2 [] [121]] []];
+     Math2 [] MDollars [Text2 [] [122]] []]; d_trail2 := [] |}.
+  Example C10_modes_grammar2_nonvacuous :
+    ok_doc2 default_ctx dm = true /\ length (unparse2 dm) = 62%nat
+    /\ leaf_modes (gen_nodelist 0 (fst (tree_of2 default_ctx (walker_state default_ctx) 0 dm)))
+       = [([120], math_mode None); ([97;32], text_mode); ([98], math_mode (Some [36]));
+          ([121], math_mode None); ([122], math_mode (Some [36;36]))].
+  Proof. vm_compute. repeat split. Qed.
+End DollarExample2.
+
+Print Assumptions C10_modes_grammar2.
+Print Assumptions C10_dollars_grammar2_partial.
+Print Assumptions C10_dollars_math_nodes2_partial.
+Print Assumptions C10_dollars_tree2_partial.
+Print Assumptions C10_dollars_two_inline_instance.
+Print Assumptions C10_dollars_one_display_instance.
+Print Assumptions C10_dollars_grammar2_nonvacuous.
+Print Assumptions C10_modes_grammar2_nonvacuous.
